@@ -556,3 +556,43 @@ GENERATORS = {
     "C01": gen_c01, "C02": gen_c02, "C03": gen_c03, "C04": gen_c04, "C08": gen_c08, "C10": gen_c10,
     "C12": gen_c12, "C13": gen_c13, "C15": gen_c15, "C18": gen_c18, "C20": gen_c20,
 }
+
+
+def gen_c14(rng, probe, tier):
+    import synprops
+    nets, cases, _ = gen_c14_sem(rng, probe, tier)
+    for c in cases:
+        c["kinds"] = ["api", "apistr"]
+    thorough = tier == "thorough"
+    per_net = 400 if thorough else 90
+    plain_apis = ["formula", "formula_dirty", "multi", "multi_dirty", "unsafe_ex"]
+    ext_apis = ["ext", "ext_dirty", "multi_ext", "multi_ext_dirty"]
+    for m in nets:
+        # strings over the network's own variable names, valid, mutated, token soup, noise
+        fg = gen.FormulaGen(rng, m["vars"] + ["nonvar"], binary=gen.BINARY_BOOL + gen.BINARY_TEMP, wild=["p", "q"], doms=["d"],
+                            var_names=("x", "y", "zz", "1", "EX"), p_quant=0.3, p_const=0.1, max_nest=3, patterns=0.05)
+        for j in range(per_net):
+            nform = 1 if rng.random() < 0.8 else 2
+            texts = []
+            for _ in range(nform):
+                f = fg.gen(rng.randint(1, 9))
+                s = synprops.render_min(f, rng)
+                x = rng.random()
+                if x < 0.5:
+                    for _ in range(rng.randint(1, 2)):
+                        s = synprops.mutate(rng, s)
+                elif x < 0.6:
+                    s = synprops.random_strings(rng, 1)[0]
+                texts.append(s)
+            ext = rng.random() < 0.6
+            labels = [l for l in ("p", "q", "d") if rng.random() < 0.7]
+            ctx = {l: rand_ctx_spec(rng, inside_unit=rng.random() < 0.6) for l in labels} if ext else {}
+            api = rng.choice(ext_apis if ext else plain_apis)
+            if not api.startswith("multi"):
+                texts = texts[:1]
+            c = {"api": api, "k": rng.choice([0, 1, 1, 2, 3]), "formulas": texts, "asts": [], "ids": [], "ctx": ctx}
+            cases.append({"id": "%s-s%d" % (m["id"], j), "net": m["id"], "kinds": ["apistr"], "calls": [c]})
+    return nets, cases, ["api", "apistr"]
+
+
+GENERATORS["C14"] = gen_c14
